@@ -144,6 +144,23 @@ theorem scaleTerms_ok (c : Rat) (ig : List LTerm) (s : PolyState) (h : TermsOK s
 
 theorem asKey_nodup (t : List Label) : (asKey t).Nodup := dedup_nodup t
 
+theorem relabelStep_ok (m : List (Label × Label)) (s : PolyState) (hs : TermsOK s) : TermsOK (relabelStep m s) := by
+  unfold relabelStep
+  have key : ∀ (l acc : PolyState), TermsOK acc →
+      TermsOK (l.foldl (fun acc e => let nt := relabelTerm m e.1
+                                     if sameSet nt e.1 then acc else objDel (objSet acc nt e.2) e.1) acc) := by
+    intro l
+    induction l with
+    | nil => intro acc h; exact h
+    | cons e r ih =>
+      intro acc h
+      simp only [List.foldl_cons]
+      apply ih
+      split
+      · exact h
+      · exact objDel_ok _ (objSet_ok acc h _ (dedup_nodup _) _) _
+  exact key s s hs
+
 theorem applyOp_ok (s s' : PolyState) (op : PolyOp) (hs : TermsOK s) (h : applyOp s op = .ok s') : TermsOK s' := by
   cases op with
   | setItem t b =>
@@ -174,6 +191,11 @@ theorem applyOp_ok (s s' : PolyState) (op : PolyOp) (hs : TermsOK s) (h : applyO
     · split at h
       · simp only [Except.ok.injEq] at h; subst h; exact hs
       · simp only [Except.ok.injEq] at h; subst h; exact scaleTerms_ok _ _ s hs
+  | relabel m =>
+    simp only [applyOp] at h
+    split at h
+    · simp only [Except.ok.injEq] at h; subst h; exact relabelStep_ok _ s hs
+    · simp at h
 
 theorem runOps_ok (ops : List PolyOp) (s s' : PolyState) (hs : TermsOK s) (h : runOps s ops = .ok s') : TermsOK s' := by
   induction ops generalizing s with
